@@ -9,6 +9,8 @@
                                       (own copy of the harness with paths rewritten; /repo itself is never touched) and record the
                                       outcome in seeded/<tag>/detection.json
   seedflow.py detect-inplace <tag> [Cxx ...]   the same through `git -C /repo apply` + `git -C /repo checkout -- .`
+  seedflow.py full <tag> [Cxx ...]    verify, detect, then remove the scratch worktree and its build output
+  seedflow.py clean <tag>             remove the scratch worktree
 """
 import json, os, shutil, subprocess, sys, time
 
@@ -133,8 +135,25 @@ def detect(tag, props, inplace=False):
     return 0
 
 
+def clean(tag):
+    wt = "/tmp/wt/" + tag
+    r = sh(["git", "-C", "/repo", "worktree", "remove", "--force", wt])
+    if r.returncode != 0:
+        shutil.rmtree(wt, ignore_errors=True)
+        sh(["git", "-C", "/repo", "worktree", "prune"])
+    return 0
+
+
 if __name__ == "__main__":
     cmd, tag = sys.argv[1], sys.argv[2]
+    if cmd == "full":       # verify, detect with the property's own check (+ extra checks), then remove the scratch worktree
+        rc = verify(tag)
+        if rc == 0:
+            detect(tag, sys.argv[3:])
+        clean(tag)
+        sys.exit(rc)
+    if cmd == "clean":
+        sys.exit(clean(tag))
     if cmd == "verify":
         sys.exit(verify(tag))
     elif cmd == "detect":
